@@ -174,9 +174,20 @@ func runC03(c *Ctx, _ []string) {
 	}
 	// a block that decodes to slightly more than the block size a forged header declares (inside the padding of the
 	// decoding buffers), with small declared sizes (fewer decoding tasks than jobs), for every job count
-	for _, cf := range []sCfg{{"NONE", "NONE", 2048, 1, 0, 0, false}, {"LZ", "HUFFMAN", 2048, 1, 32, 0, false}} {
-		for _, size := range []int{1040, 1500} {
+	// ... and to more than the padded buffer of that block size but less than the 2048-byte floor of the accepted length
+	// (1600, 2000, 2047), also with a transform sequence whose stages all declined (skip flags 0xF without the copy flag)
+	for ci0, cf := range []sCfg{{"NONE", "NONE", 2048, 1, 0, 0, false}, {"LZ", "HUFFMAN", 2048, 1, 32, 0, false},
+		{"RLT", "HUFFMAN", 2048, 1, 0, 0, false}, {"RLT", "NONE", 2048, 1, 32, 0, false}, {"LZ", "ANS0", 2048, 1, 0, 0, false}} {
+		for _, size := range []int{1040, 1500, 1600, 2000, 2047} {
 			data := mkData("text", size, 5)
+			if ci0 >= 2 { // data no stage compresses: the sequence is stored with every stage skipped
+				for k := range data {
+					data[k] = "AB"[k&1]
+				}
+				if ci0 == 4 {
+					data = mkData("random", size, 7)
+				}
+			}
 			stream, stage, err := compress(cf, data, nil)
 			if stage != "" || err != nil {
 				continue
